@@ -507,6 +507,37 @@ func C17(tier rt.Tier) int {
 										}
 									}
 								}
+								// 3c. the donor's nodes arrive over the wire (Encode -> CreateNode) and carry a version mark that
+								// differs from their origin (as nodes visited by a pruning pass do); the hash covers the origin only
+								if len(remList) > 0 && order[0] == 0 && sort.IntsAreSorted(order) {
+									wire := &donorDB{order: order}
+									for i, n := range donor.nodes {
+										c := n.CloneNode()
+										c.SetVersion(c.GetOrigin() + 3)
+										dn, err := util.CreateNode(bytes.NewReader(c.Encode()))
+										if err != nil {
+											violate("wire-decode", desc+": a marked node does not decode from its own encoding: "+err.Error(), replay)
+											return
+										}
+										wire.keys = append(wire.keys, donor.keys[i])
+										wire.nodes = append(wire.nodes, dn)
+									}
+									sdb := util.NewMemoryNodeDB()
+									_ = db.Iterate(context.Background(), func(ctx context.Context, key util.Key, node util.Node) error { return sdb.PutNode(key, node) })
+									tw := util.NewMerklePatriciaTrie(sdb, util.Sequence(tver), root, statecache.NewEmpty())
+									fail := ""
+									if err := tw.MergeDB(wire, root, nil); err != nil {
+										fail = "MergeDB returned " + err.Error()
+									} else if has, err := util.NewMerklePatriciaTrie(sdb, util.Sequence(tver), root, statecache.NewEmpty()).HasMissingNodes(context.Background()); err != nil || has {
+										fail = fmt.Sprintf("after MergeDB a fresh trie on the store still reports missing nodes (%v, %v)", has, err)
+									} else if f := viewOf(util.NewMerklePatriciaTrie(sdb, util.Sequence(tver), root, statecache.NewEmpty()), mdl, paths); f != "" {
+										fail = "after MergeDB: " + f
+									}
+									if fail != "" {
+										violate("wire-donor", desc+": repair from donor nodes that were encoded, carry a version mark (origin+3) and were decoded again: "+fail, replay)
+										return
+									}
+								}
 								// 3. repair
 								atomic.AddInt64(&repairs, 1)
 								before := donor.fingerprint()
@@ -554,7 +585,7 @@ func C17(tier rt.Tier) int {
 	rep.Set("distinct_nontrivial", int(cases))
 	rep.Set("lookups_judged", int(lookups))
 	rep.Set("repairs_judged", int(repairs))
-	rep.Set("rule", fmt.Sprintf("every content of <= %d of the paths %q (prefix pairs, interior values, prefix-free 4-char paths) x EVERY subset of its reachable non-root nodes removed from the store (all subsets up to 2^9, else all of size <= 3) x trie version equal to / different from the nodes' origin x every order of the donor store's iteration (all permutations up to %d nodes, rotations+reversals above). Oracle: HasMissingNodes <=> some node absent; GetAllMissingNodes, and the keys a full tolerant Iterate reports to its handler and records in GetMissingNodeKeys, == absent nodes whose ancestors are all present; a lookup that crosses an absent node (per the independent canonical trie) returns an error other than 'value not present', all other lookups answer per model; after MergeDB, and after MergeState into a copy of the damaged store: no missing node, full content, same root, every store key == hash of its node, donor node objects unchanged; the same repairs from a layered donor store whose own trie has replaced every value since (its upper level marks the needed nodes deleted, its lower level holds them); a MergeDB interrupted by a store write error (every position) returns the error and the same trie keeps reporting exactly what the store still lacks; a Delete on the damaged trie either fails or yields the canonical root of the remaining content; 'states' = contents, 'transitions' = (content, removal subset, version, order) cases", maxKeys, paths, permCap))
+	rep.Set("rule", fmt.Sprintf("every content of <= %d of the paths %q (prefix pairs, interior values, prefix-free 4-char paths) x EVERY subset of its reachable non-root nodes removed from the store (all subsets up to 2^9, else all of size <= 3) x trie version equal to / different from the nodes' origin x every order of the donor store's iteration (all permutations up to %d nodes, rotations+reversals above). Oracle: HasMissingNodes <=> some node absent; GetAllMissingNodes, and the keys a full tolerant Iterate reports to its handler and records in GetMissingNodeKeys, == absent nodes whose ancestors are all present; a lookup that crosses an absent node (per the independent canonical trie) returns an error other than 'value not present', all other lookups answer per model; after MergeDB, and after MergeState into a copy of the damaged store: no missing node, full content, same root, every store key == hash of its node, donor node objects unchanged; a repair from donor nodes that went through Encode/CreateNode with a version mark different from their origin; the same repairs from a layered donor store whose own trie has replaced every value since (its upper level marks the needed nodes deleted, its lower level holds them); a MergeDB interrupted by a store write error (every position) returns the error and the same trie keeps reporting exactly what the store still lacks; a Delete on the damaged trie either fails or yields the canonical root of the remaining content; 'states' = contents, 'transitions' = (content, removal subset, version, order) cases", maxKeys, paths, permCap))
 	rep.Sample(map[string]any{"content": []string{"aa", "ab", "0a1b"}, "removed": "second-level branch", "trie_version": 5, "order": []int{0}})
 	rep.RunVariant()
 	return rep.End()
